@@ -44,6 +44,8 @@ def _ctx_table():
         ("int v = sizeof(int[%s]);", lambda a: a.ext[0].init.expr.type.dim),
         ("struct S { int m : %s; };", lambda a: a.ext[0].type.decls[0].bitsize),
         ("int y[] = { [%s] = 0 };", lambda a: a.ext[0].init.exprs[0].name[0]),
+        ("int v = sizeof((char[sizeof(%s)]){0});", lambda a: a.ext[0].init.expr.type.type.dim.expr),
+        ("int v = ((char[sizeof %s]){0})[0];", lambda a: a.ext[0].init.name.type.type.dim.expr),
     ]
 
 
@@ -68,6 +70,21 @@ def _const_check(exp, all_contexts=False):
             return "Constant.value %r differs from the spelling %r (in %r)" % (c.value, lit, tmpl)
         if c.type != exp["ctype"]:
             return "Constant.type %r, spelling %r implies %r (in %r)" % (c.type, lit, exp["ctype"], tmpl)
+    if all_contexts and lit.startswith('"'):
+        # adjacent string literals are one constant whose value is their concatenation - also where the parser reads
+        # them twice (the type name of a compound literal is parsed speculatively, then again)
+        want = lit[:-1] + 'cd"'
+        for tmpl, get in (("char *p = %s \"cd\";", lambda a: a.ext[0].init),
+                          ("int v = sizeof((char[sizeof(%s \"cd\")]){0});", lambda a: a.ext[0].init.expr.type.type.dim.expr),
+                          ("int v = ((char[sizeof %s \"cd\"]){0})[0];", lambda a: a.ext[0].init.name.type.type.dim.expr)):
+            src = tmpl % lit
+            try:
+                c = get(c_parser.CParser().parse(src, "l.c"))
+            except Exception as e:
+                return "adjacent literals %r \"cd\" in %r: %s: %s" % (lit, tmpl, type(e).__name__, str(e)[:80])
+            if not isinstance(c, c_ast.Constant) or c.value != want:
+                return "adjacent literals %r \"cd\" in %r give %r, their concatenation is %r" % (
+                    lit, tmpl, getattr(c, "value", type(c).__name__), want)
     return None
 
 
